@@ -44,7 +44,7 @@ def H(mod, name, profile="L", tier="quick", **kw):
 
 SPECS = {}
 # properties whose check has been run to completion on the unchanged tree and is claimed in MANIFEST.json
-READY = {"C02", "C03", "C04", "C05", "C07", "C08", "C09", "C10", "C11", "C15", "C17", "C18", "C19", "C20"}
+READY = {"C01", "C02", "C03", "C04", "C05", "C07", "C08", "C09", "C10", "C11", "C15", "C17", "C18", "C19", "C20"}
 
 # --------------------------------------------------------------------------------------------- C17
 SPECS["C17"] = dict(
@@ -352,3 +352,143 @@ SPECS["C08"] = dict(
 )
 
 SPECS["DBG"] = dict(harnesses=[H("store_h", "dbg_store_min", profile="S", timeout=400, need_cover=False), H("config_h", "dbg_const_threshold", timeout=300, need_cover=False), H("core_h", "dbg_commit_one", timeout=200, need_cover=False, stubbing=True), H("core_h", "dbg_parent_one", timeout=200, need_cover=False, stubbing=True), H("core_h", "dbg_ser_de", timeout=120, need_cover=False, stubbing=True), H("core_h", "dbg_store_de", timeout=120, need_cover=False, stubbing=True)])
+
+# --------------------------------------------------------------------------------------------- C01
+def _c01_engine(tier, seed, rundir, repo, overlays, results):
+    """Engine Z: bounded agreement model whose node-local rules are read off the real code (cover verdicts and assertion
+    harness verdicts of this very run), decided by z3 and cross-checked with cvc5."""
+    import json
+    import subprocess
+    import time
+    t0 = time.time()
+    by = {h["short"]: (st, parsed) for h, st, parsed, _, _ in results}
+    out = {"name": "c01_agreement_smt", "queries": 0, "wall_s": 0.0, "status": "ERROR", "solver_s": 0.0, "functions": []}
+
+    def cov(short, tag):
+        st, parsed = by.get(short, ("MISSING", {"covers": []}))
+        for c in parsed["covers"]:
+            if tag in c["desc"]:
+                return c["status"] == "SATISFIED"
+        return None
+    need = ["c01_rules_vote", "c01_rules_vote_notc", "lt_local_timeout", "pb_gap_notc", "pb_consec_notc", "c04_qc_verify_k3", "c04_tc_verify_k3"]
+    for n in need:
+        st = by.get(n, ("MISSING", None))[0]
+        if st not in ("PASS", "FAIL"):
+            out["detail"] = "rule source %s is %s" % (n, st)
+            out["wall_s"] = time.time() - t0
+            return out
+
+    def failed_with(short, text):
+        st, parsed = by[short]
+        return st == "FAIL" and any(text in f["desc"] for f in parsed["failed"])
+    both = lambda tag: bool(cov("c01_rules_vote", tag)) or bool(cov("c01_rules_vote_notc", tag))  # noqa: E731
+    kn = {"N": 4, "F": 1}
+    kn["rule1"] = "none" if (both("vote_below_last_voted") or cov("c01_rules_vote", "vote_does_not_record_round")) else ("weak" if both("vote_at_equal_round") else "strict")
+    kn["consec"] = not both("vote_without_consecutive_certificate")
+    kn["tc_slack"] = None if cov("c01_rules_vote", "tc_vote_qc_far_below_max_high_qc") else (1 if cov("c01_rules_vote", "tc_vote_qc_one_below_max_high_qc") else 0)
+    qs = [k for k, tag in ((1, "q_is_1"), (2, "q_is_2"), (3, "q_is_3"), (4, "q_is_4_or_more")) if cov("c01_rules_vote", tag)]
+    kn["q"] = qs[0] if len(qs) == 1 else 3
+    kn["bump"] = not failed_with("lt_local_timeout", "timeout did not raise last_voted_round")
+    kn["gap_any"] = failed_with("pb_gap_notc", "C05 commit without a consecutive-round")
+    kn["cert_sound"] = by["c04_qc_verify_k3"][0] == "PASS" and by["c04_tc_verify_k3"][0] == "PASS"
+    sane = cov("c01_rules_vote", "sanity_qc_vote_possible") and cov("c01_rules_vote", "sanity_tc_vote_possible") and len(qs) == 1
+    ref = {"rule1": "strict", "consec": True, "tc_slack": 0, "q": 3, "bump": True, "gap_any": False, "cert_sound": True}
+    deviating = [k for k in ref if kn[k] != ref[k]]
+    out["rule_table"] = {k: kn[k] for k in ref}
+    out["rule_table_deviates_from_2chain_hotstuff"] = deviating
+    out["functions"] = ["core::Core::make_vote", "core::Core::local_timeout_round", "core::Core::process_block", "config::Committee::quorum_threshold",
+                        "messages::QC::verify", "messages::TC::verify"]
+    if not sane:
+        out["status"] = "ERROR"
+        out["detail"] = "rule extraction vacuous (a sanity cover is unsatisfiable or the threshold is not unique): %s" % qs
+        out["wall_s"] = time.time() - t0
+        return out
+    ks = [5] if tier == "quick" else [5, 6, 7]
+    runs = []
+    status = "PASS"
+    here = os.path.dirname(os.path.dirname(os.path.abspath(__file__)))
+    for K in ks:
+        k2 = dict(kn, K=K, timeout_s=600 if tier == "quick" else 2400, dump=os.path.join(rundir, "agree_K%d.smt2" % K))
+        r = subprocess.run(["python3-vt", os.path.join(here, "smt", "agree.py"), json.dumps(k2)], stdout=subprocess.PIPE, stderr=subprocess.PIPE, universal_newlines=True)
+        out["queries"] += 1
+        try:
+            res = json.loads(r.stdout.strip().split("\n")[-1])
+        except Exception:  # noqa
+            out["detail"] = "z3 run failed: " + (r.stderr or r.stdout)[-400:]
+            out["wall_s"] = time.time() - t0
+            return out
+        out["solver_s"] += res["solver_s"]
+        run = {"K": K, "z3": res["result"], "z3_s": res["solver_s"], "assertions": res["assertions"]}
+        # second solver: the same encoding at K=4 is re-decided by cvc5 from the SMT-LIB text z3 printed (K=5 already takes cvc5 > 5 min)
+        if K == ks[0]:
+            k4 = dict(kn, K=4, timeout_s=300, dump=os.path.join(rundir, "agree_K4.smt2"))
+            r4 = subprocess.run(["python3-vt", os.path.join(here, "smt", "agree.py"), json.dumps(k4)], stdout=subprocess.PIPE, stderr=subprocess.PIPE, universal_newlines=True)
+            z4 = json.loads(r4.stdout.strip().split("\n")[-1])["result"]
+            tc = time.time()
+            c = subprocess.run(["timeout", "300", "cvc5", "--lang", "smt2", k4["dump"]], stdout=subprocess.PIPE, stderr=subprocess.STDOUT, universal_newlines=True)
+            out["queries"] += 2
+            cres = "error" if "(error" in c.stdout else (c.stdout.strip().split("\n")[-1] if c.stdout.strip() else "timeout")
+            run["cross_check_K4"] = {"z3": z4, "cvc5": cres, "cvc5_s": round(time.time() - tc, 1)}
+            if cres in ("sat", "unsat") and cres != z4:
+                status = "ERROR"
+                out["detail"] = "solvers disagree at K=4: z3 %s, cvc5 %s" % (z4, cres)
+            if cres == "error":
+                status = "ERROR"
+                out["detail"] = "cvc5 rejected the SMT-LIB text: " + c.stdout[:300]
+        runs.append(run)
+        if res["result"] == "sat":
+            status = "FAIL"
+            out["history"] = res.get("history")
+            out["failed"] = ["C01 agreement violated in the bounded history model instantiated with the rules extracted from the code "
+                             "(deviating rules: %s; K=%d blocks, N=4, f=1)" % (", ".join(deviating) or "none", K)]
+            break
+        if res["result"] != "unsat":
+            status = "ERROR"
+            out["detail"] = "z3 returned %s at K=%d" % (res["result"], K)
+            break
+        if status == "ERROR":
+            break
+    out["runs"] = runs
+    out["status"] = status
+    out["obligations"] = len(runs)
+    out["discharged"] = len([r for r in runs if r["z3"] == "unsat"])
+    out["nontrivial"] = out["discharged"]
+    # which assertion harness demonstrates the deviating local step natively
+    rep = []
+    if any(k in deviating for k in ("rule1", "consec", "tc_slack")):
+        rep += ["c03_make_vote_tc", "c03_make_vote_no_tc"]
+    if "bump" in deviating:
+        rep += ["lt_local_timeout"]
+    if "gap_any" in deviating:
+        rep += ["pb_gap_notc"]
+    if "q" in deviating:
+        rep += ["c17_quorum_k4"]
+    if "cert_sound" in deviating:
+        rep += ["c04_qc_verify_k3", "c04_tc_verify_k3"]
+    out["replay_of"] = rep
+    out["bounds"] = "N=4 nodes, f=1 Byzantine, K=%s blocks, rounds <= K+1" % ks
+    out["wall_s"] = round(time.time() - t0, 1)
+    return out
+
+
+SPECS["C01"] = dict(
+    level="model_checking",
+    technique="SMT (z3, cross-checked with cvc5) bounded history encoding of agreement whose node-local rules are extracted from the real code by Kani/CBMC cover and assertion queries on every run",
+    bounds="N=4 nodes with equal stake, up to f=1 Byzantine (free), K=5 blocks (thorough: 6, 7) with arbitrary rounds <= K+1, parents, TCs, vote/timeout orders; fully adversarial network. Rule extraction: all u64 rounds below 2^62 for make_vote (TC of 3 entries), one local timeout, process_block on stored 2-chains (5,6)/(5,7), QC/TC verification with 3 entries",
+    outside="longer histories, other committees/stake distributions, more Byzantine nodes; the adequacy of the rule vocabulary (a code change outside the extracted rules - e.g. in how certificates are embedded in proposals - is invisible to the model); everything the shims assume (ideal signatures, collision-free hash). This is a bounded claim about an abstraction computed from the code, not a proof of HotStuff",
+    trusted_base=TB_L + ["smt/agree.py: the history encoding (blocks, votes, timeouts, certificates, commit rule, ancestor relation)", "z3 4.8.12, cvc5 1.0"],
+    assumptions=["honest nodes follow exactly the extracted local rules; Byzantine nodes and the network are unconstrained", "rounds below 2^62"],
+    engines=[_c01_engine],
+    harnesses=[
+        H("core_h", "c01_rules_vote", info_covers=True, symbolic="last_voted_round, block/QC/TC rounds, 3 high-QC rounds (u64)", asserts="(none: 12 cover queries - can the real make_vote vote at/below last_voted, without a consecutive certificate, with the QC 1 / >=2 below the TC's max high QC; which quorum threshold)"),
+        H("core_h", "c01_rules_vote_notc", info_covers=True, symbolic="last_voted_round, block/QC rounds", asserts="(none: 4 cover queries)"),
+        H("core_h", "c03_make_vote_no_tc", symbolic="as C03", asserts="local step replayed natively if the vote rule deviates"),
+        H("core_h", "c03_make_vote_tc", symbolic="as C03", asserts="as above"),
+        H("core2_h", "lt_local_timeout", stubbing=True, timeout=900, mem_gb=16, symbolic="node state", asserts="rule source: a local timeout raises last_voted_round"),
+        H("core_h", "pb_gap_notc", stubbing=True, timeout=900, mem_gb=16, symbolic="node state, block", asserts="rule source: no commit across a round gap"),
+        H("core_h", "pb_consec_notc", stubbing=True, timeout=900, mem_gb=16, symbolic="node state, block", asserts="rule source: commit on a consecutive 2-chain"),
+        H("messages_h", "c04_qc_verify_k3", symbolic="as C04", asserts="rule source: certificates need a quorum of distinct members with valid signatures"),
+        H("messages_h", "c04_tc_verify_k3", symbolic="as C04", asserts="as above"),
+        H("config_h", "c17_quorum_k4", symbolic="as C17", asserts="local step replayed natively if the threshold deviates"),
+    ],
+)
